@@ -2,7 +2,10 @@ module verif/harness
 
 go 1.24
 
-require github.com/google/badwolf v0.0.0
+require (
+	github.com/anishathalye/porcupine v1.3.0
+	github.com/google/badwolf v0.0.0
+)
 
 require (
 	github.com/google/uuid v1.6.0 // indirect
